@@ -1678,7 +1678,8 @@ enhance(vbi_decoder *vbi,
 					int designation = (p->data >> 4) + ((p->address & 1) << 4);
 					int triplet = p->data & 15;
 
-					if (type != LOCAL_ENHANCEMENT_DATA || triplet > 12)
+					if (type != LOCAL_ENHANCEMENT_DATA || triplet > 12
+					    || designation > 15)
 						break; /* invalid */
 
 					printv("... local obj %d/%d\n", designation, triplet);
